@@ -148,21 +148,24 @@ func (e *Env) Conform(c *Corpus, pkgs []string, families string, thorough bool, 
 		return nil, err
 	}
 	// 1. trace sets from the instrumented runner, no pruning
-	const shards = 8
+	runners := c.Runners()
+	const per = 8
+	shards := per * len(runners)
 	var sets []*explore.TraceSet
 	outs := make([]string, shards)
 	errs := make([]error, shards)
-	Parallel(shards, shards, func(i int) {
-		outs[i] = filepath.Join(c.Dir, fmt.Sprintf("traces-%d-%d.jsonl", os.Getpid(), i))
-		args := []string{"-cases", c.Cases, "-scenarios", families, "-traces", strings.Join(pkgs, ","), "-shard", strconv.Itoa(i), "-shards", strconv.Itoa(shards), "-max", "20000", "-out", outs[i]}
+	Parallel(shards, 16, func(j int) {
+		i := j % per
+		outs[j] = filepath.Join(c.Dir, fmt.Sprintf("traces-%d-%d.jsonl", os.Getpid(), j))
+		args := []string{"-cases", c.Cases, "-scenarios", families, "-traces", strings.Join(pkgs, ","), "-shard", strconv.Itoa(i), "-shards", strconv.Itoa(per), "-max", "20000", "-out", outs[j]}
 		if thorough {
 			args = append(args, "-thorough")
 		}
-		cmd := exec.Command(c.Runner, args...)
+		cmd := exec.Command(runners[j/per], args...)
 		var stderr bytes.Buffer
 		cmd.Stderr = &stderr
 		if err := cmd.Run(); err != nil {
-			errs[i] = fmt.Errorf("trace enumeration shard %d: %v %s", i, err, tail(stderr.String(), 2000))
+			errs[j] = fmt.Errorf("trace enumeration shard %d: %v %s", j, err, tail(stderr.String(), 2000))
 		}
 	})
 	for i, p := range outs {
